@@ -12,6 +12,23 @@ NOT_APPLICABLE = {}
 HOOK_COMMITS = []
 
 CHECKS = {
+    "C18": {
+        "run": "^TestC18_",
+        "rule": ("cases = (plugin operator, parameters, input items) drawn by rapid from domain-specific generators with boundary pools (empty, multi-byte and invalid UTF-8, NUL, number-like "
+                 "strings, bases and bit sizes in and out of range, regexps from a pool, layouts and zones, templates over a generated struct, base64 encodings, JSON/gob values incl. NaN, CSV "
+                 "rows with quotes and newlines, byte slices with spare capacity, sort inputs of sizes crossing 12 with few distinct keys, readers with 1-byte / exact-buffer reads, data "
+                 "returned together with EOF, faults after j bytes, sizes around 1024 and 4096, lines up to 70000 bytes). Non-trivial = malformed / non-ASCII / threshold-crossing / "
+                 "equal-but-distinguishable input as stated per sub-check; distinct by descriptor hash."),
+        "quick": {"rapid": 200, "timeout": 300, "shards": 4},
+        "thorough": {"rapid": 4000, "timeout": 3000, "shards": 16, "fuzz": True},
+        "assumptions": COMMON_ASSUMPTIONS + ["the standard-library functions the plugins wrap (strconv, regexp, time, text/html template, encoding/*, sort) are the oracles"],
+        "technique": "differential property-based testing against the wrapped standard-library function, flavour agreement, round trips, permutation/stability and concatenation predicates; native Go fuzz targets in the thorough tier",
+        "level_text": ("Exploration. Item by item, every plugin operator is compared with the library function it wraps applied directly (same value, or an Error notification carrying "
+                       "that function's error, never a panic); string and byte flavours of the text helpers must agree on the same text; encode-then-decode is the identity (base64, gob, "
+                       "CSV); sort emits a sorted permutation, stable where it says so; reader chunks concatenate to the input (lines: minus terminators), including data returned with "
+                       "EOF and injected read faults; no operator modifies the value it was handed or a value already delivered; every plugin row keeps grammar, source release and context."),
+        "level_note": "One listed finding pinned by the plugins' own tests (byte-wise word splitting on non-ASCII text).",
+    },
     "C20": {
         "run": "^TestC20_",
         "rule": ("cases = (limiter {native, ulule with the in-memory store}, quota 1-3, window 5-40 ms (ulule: 3-10 ms, or one hour for the exact model), 1-3 keys, arrival timeline "
